@@ -62,6 +62,78 @@ KNOWN_TYPES = {"&str", "Cow<str>", "Value", "&Value", "&[Value]", "&Map", "f64",
                "i32", "i128", "-"}
 
 
+VARIANT = r"ValueInner::(\w+)"
+
+
+def value_method_row(value_rs, method):
+    """the `ValueInner` variants for which `Value::<method>` answers Some / true"""
+    body = fn_body(value_rs, rf"pub fn {method}\s*\(&self\)")
+    head = body.split("_ =>")[0] if "_ =>" in body else body
+    row = re.findall(VARIANT, head)
+    if not row:
+        raise ValueError(f"Value::{method}: no ValueInner arm recognised")
+    return row
+
+
+def arg_rows(args_rs, value_rs):
+    """(Rust argument type -> ValueInner variants the ArgFromValue impl does not answer with
+    InvalidArgument), read from args.rs (and the Value accessors it calls)."""
+    rows = {}
+    # impl_for_literal!(ty, { ValueInner::X(..) => .., })
+    for m in re.finditer(r"impl_for_literal!\((\w+),\s*\{(.*?)\}\);", args_rs, re.S):
+        rows[m.group(1)] = re.findall(VARIANT, m.group(2))
+    # int_from_value: the arms before the `_ => return Err(invalid_arg_type)` arm
+    body = fn_body(args_rs, r"fn int_from_value<T>\(")
+    if "_ => return Err(Error::invalid_arg_type" not in body:
+        raise ValueError("int_from_value: fall-through arm not recognised")
+    head = body.split("_ => return Err(Error::invalid_arg_type")[0]
+    ints = re.findall(VARIANT, head)
+    if "ValueInner::F64(v) if v.trunc() == *v" not in head:
+        raise ValueError("int_from_value: the guard of the F64 arm changed")
+    int_types = re.findall(r"impl_for_int!\((\w+)\);", args_rs)
+    for t in int_types:
+        rows[t] = ints
+    # impls written by hand: classify by the accessor they rely on
+    def impl_body(ty_regex):
+        m = re.search(rf"impl<'k> ArgFromValue<'k> for {ty_regex} \{{", args_rs)
+        if not m:
+            raise ValueError(f"ArgFromValue impl for {ty_regex} not found")
+        i = m.end() - 1
+        depth = 0
+        for j in range(i, len(args_rs)):
+            if args_rs[j] == "{":
+                depth += 1
+            elif args_rs[j] == "}":
+                depth -= 1
+                if depth == 0:
+                    return args_rs[i:j]
+        raise ValueError("unbalanced braces")
+    everything = ["Undefined", "None", "Bool", "U64", "I64", "U128", "I128", "F64", "String", "Array", "Map", "Bytes"]
+    b = impl_body(r"&str")
+    if ".as_str()" not in b or "invalid_arg_type" not in b:
+        raise ValueError("&str impl: shape not recognised")
+    rows["&str"] = value_method_row(value_rs, "as_str")
+    for ty, rx in (("&Map", r"&Map"),):
+        b = impl_body(rx)
+        if ".as_map()" not in b or "invalid_arg_type" not in b:
+            raise ValueError(f"{ty} impl: shape not recognised")
+        rows[ty] = value_method_row(value_rs, "as_map")
+    b = impl_body(r"&\[Value\]")
+    if "invalid_arg_type" not in b:
+        raise ValueError("&[Value] impl: shape not recognised")
+    rows["&[Value]"] = re.findall(VARIANT, b.split("_ =>")[0])
+    b = impl_body(r"Number")
+    if "as_number()" not in b or "is_number()" not in b or "invalid_arg_type" not in b:
+        raise ValueError("Number impl: shape not recognised")
+    rows["Number"] = value_method_row(value_rs, "is_number")
+    for ty, rx in (("Value", r"Value"), ("&Value", r"&Value"), ("Cow<str>", r"Cow<'_, str>")):
+        b = impl_body(rx)
+        if "invalid_arg_type" in b or "Err(" in b:
+            raise ValueError(f"{ty} impl can fail now: shape not recognised")
+        rows[ty] = everything
+    return rows
+
+
 def lean_str(s):
     return '"' + s.replace("\\", "\\\\").replace('"', '\\"') + '"'
 
@@ -101,5 +173,19 @@ def generate(repo):
         out.append(",\n".join(rows))
         out.append("]")
         out.append("")
+    rows = arg_rows(read(repo, "tera/src/args.rs"), read(repo, "tera/src/value/mod.rs"))
+    used = sorted(KNOWN_TYPES - {"-"})
+    out.append("/-- (argument type, the `ValueInner` variants its `ArgFromValue` impl does not refuse with")
+    out.append("InvalidArgument) for every argument type the built-ins use; for the integer types the `F64`")
+    out.append("variant is accepted only when the float is integral (`v.trunc() == *v`) -/")
+    out.append("def argRows : List (String × List String) := [")
+    rws = []
+    for t in used:
+        if t not in rows:
+            raise ValueError(f"no ArgFromValue row extracted for `{t}`")
+        rws.append(f"  ({lean_str(t)}, [" + ", ".join(lean_str(v) for v in rows[t]) + "])")
+    out.append(",\n".join(rws))
+    out.append("]")
+    out.append("")
     out.append("end Tera.Generated.Builtins")
     return {"Builtins.lean": "\n".join(out) + "\n"}
